@@ -2,7 +2,8 @@
 (* Trace validation for C17.  The driver (harness/c17_flow/driver.cpp) builds the real tree of each  *)
 (* program, drives the loop pass by pass and records                                                 *)
 (*   {"e":"Reset","prog":[...]}            a new execution: the program                              *)
-(*   {"e":"Ctl","op":..,"ret":..}          a control call on the root and its return value           *)
+(*   {"e":"Ctl","op":..,"ret":..,"mid":b}  a control call on the root and its return value; mid: made   *)
+(*                                         from a task in the middle of a batch (after a snapshot)    *)
 (*   {"e":"Tick"}                          the virtual clock advanced by one unit, probe leaves counted *)
 (*   {"e":"Snap","st":[..],"res":[..],"ev":[[kind,node],..]}                                         *)
 (*        state()/result() of every node at the start of the next pass and the observable events     *)
@@ -18,9 +19,9 @@ EXTENDS ActionTree, Json, IOUtils
 CONSTANTS MaxSilent,   \* bound on silent steps between two snapshots
           MaxAge       \* a queued notification is delivered before it has waited MaxAge ticks (the code: 1)
 Log == ndJsonDeserialize(IOEnv.TRACE)
-VARIABLES l, sil
+VARIABLES l, sil, open     \* open: silent steps may happen now (the driver is not between a snapshot and its tick)
 ASSUME TLCSet(42, 0)
-tvars == <<vars, l, sil>>
+tvars == <<vars, l, sil, open>>
 
 Ev == Log[l]
 IsEv(e) == l <= Len(Log) /\ Log[l].e = e /\ l' = l + 1
@@ -50,16 +51,18 @@ SnapMatches ==
   /\ SameEvents(S.log, Ev.ev)
 
 Dummy == <<[k |-> "Leaf", m |-> 0, c |-> <<>>, p |-> 0, o |-> "never", d |-> 0, tag |-> 0, to |-> 0, n |-> 0]>>
-TInit == /\ prog = Dummy /\ S = InitS(Dummy) /\ nctl = 0 /\ lastop = "init" /\ l = 1 /\ sil = 0
+TInit == /\ prog = Dummy /\ S = InitS(Dummy) /\ nctl = 0 /\ lastop = "init" /\ l = 1 /\ sil = 0 /\ open = FALSE
 
 TReset == /\ IsEv("Reset")
-          /\ prog' = Ev.prog /\ S' = InitS(Ev.prog) /\ nctl' = 0 /\ lastop' = "init" /\ sil' = 0
-TCtl == IsEv("Ctl") /\ Ev.ret = Ret(Ev.op) /\ Ctl(Ev.op) /\ Compatible(S'.log, l') /\ UNCHANGED sil
-TTick == IsEv("Tick") /\ (\A i \in DOMAIN S.q : S.q[i].age < MaxAge) /\ Tick /\ UNCHANGED sil
+          /\ prog' = Ev.prog /\ S' = InitS(Ev.prog) /\ nctl' = 0 /\ lastop' = "init" /\ sil' = 0 /\ open' = FALSE
+\* a control call directly follows a snapshot or another call (no silent step since): what it causes is told apart from what preceded it
+TCtl == IsEv("Ctl") /\ sil = 0 /\ Ev.ret = Ret(Ev.op) /\ Ctl(Ev.op) /\ Compatible(S'.log, l')
+        /\ open' = (open \/ Ev.mid) /\ UNCHANGED sil
+TTick == IsEv("Tick") /\ (\A i \in DOMAIN S.q : S.q[i].age < MaxAge) /\ Tick /\ open' = TRUE /\ UNCHANGED sil
 TSnap == /\ IsEv("Snap") /\ SnapMatches
-         /\ S' = [S EXCEPT !.log = <<>>] /\ sil' = 0 /\ lastop' = "snap" /\ UNCHANGED <<prog, nctl>>
+         /\ S' = [S EXCEPT !.log = <<>>] /\ sil' = 0 /\ lastop' = "snap" /\ open' = FALSE /\ UNCHANGED <<prog, nctl>>
 \* in the driver nothing runs between a snapshot, the control call and the tick of the same step
-Silent(A) == lastop \in {"tick", "fire", "timeout", "deliver"} /\ A /\ sil < MaxSilent /\ sil' = sil + 1 /\ l <= Len(Log) /\ UNCHANGED l /\ Compatible(S'.log, l)
+Silent(A) == open /\ A /\ sil < MaxSilent /\ sil' = sil + 1 /\ l <= Len(Log) /\ UNCHANGED <<l, open>> /\ Compatible(S'.log, l)
 TDeliver == Silent(Deliver)
 TFire == Silent(LeafCompletes)
 TTimeout == Silent(ActionTimeout)
